@@ -290,6 +290,18 @@ def main():
     t0 = time.time()
     budget = 600 if a.tier == 'quick' else 3000
     ctx = Ctx(prop, a.tier, seed, t0 + budget)
+    # hard watchdog: a hung harness (deadlock in the code under test, runaway search) must end as an
+    # infrastructure failure (exit 2, no VIOLATION line), never as a check that does not return
+    import threading
+
+    def _watchdog():
+        sys.stderr.write('TIMEOUT: %s %s exceeded its hard limit of %ds\n' % (prop, a.tier, hard))
+        sys.stderr.flush()
+        os._exit(2)
+    hard = int(os.environ.get('VERIF_HARD_LIMIT', budget * 1.5 + 120))
+    _wd = threading.Timer(hard, _watchdog)
+    _wd.daemon = True
+    _wd.start()
     os.makedirs(os.path.join(VERIF, 'evidence'), exist_ok=True)
     os.makedirs(os.path.join(VERIF, 'replays'), exist_ok=True)
     report = {}
